@@ -12,7 +12,9 @@
 pub mod chan;
 pub mod ctx;
 pub mod hash;
+pub mod mpsc;
 pub mod sync;
 pub mod time;
 
+pub use chan::thread;
 pub use ctx::{fault_fired, probe, FaultKind};
